@@ -274,6 +274,7 @@ func (s *serverSocket) Join(room ...Room) {
 	s.joinMu.Lock()
 	join := s.join
 	s.joinMu.Unlock()
+	vhook.Yield("ssocket.join.window", s)
 	join(room...)
 }
 
